@@ -62,6 +62,7 @@ def run(R):
             elif f.get("data") == "moved" or (f.get("allocs") == "1" and f.get("fired") == "0"):
                 if int(f["size"]) < SIZEOF: why = "*size %s after growth is below sizeof (struct crypt_data)" % f["size"]
                 elif f.get("oldzero") == "0" and 0 < sizeb: why = "the undersized block was not erased before realloc"
+                elif f.get("wz") == "0": why = "a block that had to grow is not zero-initialised afterwards (its scratch areas hold what the allocator returned)"
             if f.get("ret") == "other": why = "the result does not point to the output field of *data"
             needs_alloc = f.get("datab") == "null" or sizeb < SIZEOF
             if f.get("fired") == "1" and needs_alloc and (f.get("ret") != "NULL" or f.get("errno") != "ENOMEM" or int(f["size"]) != sizeb):
